@@ -1766,6 +1766,11 @@ fn normalized_for_bounds(constraint: &Constraint) -> Constraint {
     )
 }
 
+#[cfg(feature = "verif_hooks")]
+pub(crate) fn verif_normalized_for_bounds(constraint: &Constraint) -> Constraint {
+    normalized_for_bounds(constraint)
+}
+
 fn extract_coeffs(exp: &IndexMap<String, f64>, vars: &IndexMap<String, usize>) -> Vec<f64> {
     let mut vec = vec![0.0; vars.len()];
     for (name, val) in exp.iter() {
